@@ -21,9 +21,11 @@ import (
 func init() { engines["vbc"] = runVBC }
 
 type vbcMembership struct {
-	me  primitives.MemberId
-	cm  []interfaces.CommitteeMember
-	err bool
+	me    primitives.MemberId
+	cm    []interfaces.CommitteeMember
+	err   bool
+	h     primitives.BlockHeight      // the height cm is the committee of
+	decoy []interfaces.CommitteeMember // what Membership answers for every other height
 }
 
 func (m *vbcMembership) MyMemberId() primitives.MemberId { return m.me }
@@ -33,6 +35,9 @@ func (m *vbcMembership) RequestOrderedCommittee(ctx context.Context, h primitive
 func (m *vbcMembership) RequestCommitteeForBlockProof(ctx context.Context, h primitives.BlockHeight, t primitives.TimestampSeconds) ([]interfaces.CommitteeMember, error) {
 	if m.err {
 		return nil, errors.New("committee unavailable")
+	}
+	if m.decoy != nil && h != m.h {
+		return m.decoy, nil // committees differ from height to height: only the block's own height gives the right one
 	}
 	return m.cm, nil
 }
@@ -253,7 +258,35 @@ func runVBC(cfg *runCfg) error {
 					rep.finding("C12", "validate-block-consensus-panics", fmt.Sprintf("ValidateBlockConsensus panicked: %v", e), fmt.Sprintf("%x", bytesP))
 				}
 			}()
-			verdict = node.ValidateBlockConsensus(ctx, block, bytesP, nil, prevProof, soft) == nil
+			// the committee of another height: made of exactly the proof's signers (so that a certificate too light for the
+			// real committee is a full quorum of it) or of strangers (so that a genuine certificate is worthless under it)
+			mem.h = primitives.BlockHeight(h)
+			if r.Intn(2) == 0 {
+				for _, sg := range signers {
+					mem.decoy = append(mem.decoy, interfaces.CommitteeMember{Id: idBytes(sg.Id), Weight: 1})
+				}
+			}
+			if len(mem.decoy) == 0 {
+				for j := 0; j < 4; j++ {
+					mem.decoy = append(mem.decoy, interfaces.CommitteeMember{Id: idBytes(uint64(200 + j)), Weight: 1})
+				}
+			}
+			// prevBlock: absent, the parent, or some other block - the verdict may not depend on it
+			var prevBlk interfaces.Block
+			switch r.Intn(4) {
+			case 1:
+				if h > 1 {
+					prevBlk = &vblock{height: primitives.BlockHeight(h - 1), id: 90}
+				}
+			case 2:
+				prevBlk = &vblock{height: primitives.BlockHeight(h + uint64(r.Intn(3))), id: 91}
+			case 3:
+				prevBlk = &vblock{height: primitives.BlockHeight(uint64(r.Intn(int(h)))), id: 92}
+			}
+			if prevBlk != nil {
+				rep.count(fmt.Sprintf("prevblock:height-delta-%d", int64(uint64(prevBlk.Height()))-int64(h)))
+			}
+			verdict = node.ValidateBlockConsensus(ctx, block, bytesP, prevBlk, prevProof, soft) == nil
 		}()
 		var gotIds []primitives.MemberId
 		var idErr error
